@@ -189,7 +189,12 @@ reg("C01",
              4: "released hit puts the count more than one hit above the schedule", 5: "positive wait although the count is behind the schedule",
              6: "wait wrapped around (instant outside int64)", 7: "wait overshoots the schedule by more than the 1ns quantisation",
              20: "pacer panicked in the closed loop", 21: "closed-loop count exceeds schedule + 1 at a release instant",
-             22: "release instants decrease", 23: "stall-free closed-loop count falls more than one hit (+1ns/hit) behind the schedule"},
+             22: "release instants decrease", 23: "stall-free closed-loop count falls more than one hit (+1ns/hit) behind the schedule",
+             40: "linear pacer panicked", 41: "linear pacer: released hit puts the count more than one hit above the schedule",
+             42: "linear pacer: positive wait although the count is behind the schedule", 43: "linear pacer: negative frequency/unit does not stop the attack",
+             44: "linear pacer: zero frequency/unit does not mean unlimited rate", 45: "linear pacer, negative slope, while rate^2 >= 4|slope|delta^2: released hit puts the count more than one hit above the schedule"},
+    diffs={10: "ConstantPacer.Pace differs from the model", 11: "ConstantPacer.Rate differs", 30: "closed-loop release instants differ from the model's", 31: "closed-loop final outcome differs",
+           50: "LinearPacer.Pace wait differs from the exact-Q model beyond the guard band", 51: "LinearPacer.Rate differs", 52: "LinearPacer: model stops, implementation waits", 53: "LinearPacer: implementation stops, model waits"},
     assumptions=["linear and sine pacers use float64 arithmetic: see DESIGN.md section 5 C01 for their partial treatment",
                  "elapsed in [0, 2^63), hits in [0, 2^64) for the contract theorems (const_dom); the no-panic / sign theorems hold for all integers"],
     level_text="closed_loop_upper (generic, all pacers/stall histories/lengths), const_no_panic, const_neg_stops, const_zero_unlimited, const_overflow_stops, const_contract, const_positive_wait, const_lower are proved in Coq over Z with the uint64/int64 wrap-arounds of the Go code written out; the model is compared bit-exactly with ConstantPacer.Pace on every run, and the property's clauses are decided on every observed call and closed-loop trajectory by a checker defined in Coq.",
